@@ -646,6 +646,10 @@ def run_ss(c, case, s0):
             for yn in out['y']:
                 if yn.startswith('v_'):
                     ys.append(rs(n[yn[2:-3]].V.dc.sympy))
+                elif c.elements[yn[2:-3]].is_inductor or c.elements[yn[2:-3]].is_capacitor:
+                    # current of a substituted component: its sign convention is checked against circuit analysis
+                    # (response oracle), not against the auxiliary source
+                    ys.append(None)
                 else:
                     ys.append(rs(n[newname[yn[2:-3]]].I.dc.sympy))
             exc.append({'X': [rs(X[k]) for k in states], 'U': [rs(Uv[k]) for k in srcs], 'dotx': dotx, 'y': ys, 'lines': lines})
